@@ -75,7 +75,8 @@ Record env := { e_getparser : Z -> res parser;
                 e_title_of : Z -> Z;            (* file name -> base name without extension *)
                 e_open_w : Z -> res unit;       (* can the file be opened for writing *)
                 e_default_pdffit : list (string * Z);
-                e_default_cell : Z }.
+                e_default_cell : Z;
+                e_new_lattice : Z }.            (* identity of the Lattice() inside a newly made Structure() *)
 Record args := { g_filename : Z; g_source : Z; g_format : Z }.
 
 Fixpoint fs_get (n : Z) (fs : files) : option Z :=
@@ -89,6 +90,7 @@ Inductive effect :=
 | EGetParser                    (* p = getParser(format) *)
 | EParse                        (* new_structure = p.parse(s) *)
 | EParseFile                    (* new_structure = p.parseFile(filename) *)
+| EDefaultNewStructure          (* if new_structure is None: new_structure = Structure() *)
 | EDropInst (a : attr)          (* self.__dict__.pop(a, None) *)
 | EInitSelf                     (* Structure.__init__(self) *)
 | EGuardParsed (e : effect)     (* if new_structure is not None: e *)
@@ -199,6 +201,12 @@ Definition update_spcgr (g : Z) (o : obj) : option obj :=
   | _ => None
   end.
 
+(* Structure(): no atoms, a default Lattice() of its own, nothing else in the instance dictionary *)
+Definition empty_parsed (E : env) : parsed :=
+  {| p_cls := CStructure; p_items := []; p_inst := [("_lattice", VLat (e_new_lattice E) (e_default_cell E))] |}.
+(* the structure the statements after the parse work with *)
+Definition effective (E : env) (r : option parsed) : parsed := match r with Some ps => ps | None => empty_parsed E end.
+
 Definition parse_step (fr : frame) (po : parser_obj) (fname : option Z) (out : parse_out) : outcome :=
   let po' := {| pb_parser := pb_parser po; pb_filename := fname; pb_sg := po_sg out |} in
   match po_result out with
@@ -225,6 +233,11 @@ Fixpoint step0 (E : env) (G : args) (e : effect) (fr : frame) : outcome :=
       | PObj po => parse_step fr po (Some (g_filename G)) (ps_parsefile (pb_parser po) (g_filename G) (f_fs fr))
       | PNone => Failed X_attribute fr
       | PUnbound => Failed X_unbound fr
+      end
+  | EDefaultNewStructure =>
+      match f_new fr with
+      | None => Failed X_unbound fr
+      | Some r => Done (set_new fr (Some (Some (effective E r))))
       end
   | EDropInst a => Done (set_self fr (drop_inst a (f_self fr)))
   | EInitSelf =>
@@ -378,6 +391,7 @@ Fixpoint is_return (e : effect) : bool :=
 Definition safe_after_parse (e : effect) : bool :=
   match e with
   | EImport | EDropInst _ | EInitSelf | EReturnParser | EReturnNone | EDefaultTitleFromFilename | ERestoreDefaultPdffit
+  | EDefaultNewStructure
   | EGuardParsed EUpdateDict | EGuardParsed ESetAllItems | EGuardParsed EImport
   | EGuardParsed (EDropInst _) | EGuardParsed EInitSelf => true
   | _ => false
